@@ -622,39 +622,53 @@ func r03HalfOpenTables(c *core.Ctx) {
 		}
 		c.Check(R, "quadrant-bit-layout-agrees/pointindex", iq.Decl.Pos(), layout, "isRight | isTop<<1 in getInfiniteQuadrant, right=1/top=2 in oneIfRight/oneIfTop, child = 2*parent + bit in getQuadrantZs", "the quadrant numbering used to classify points differs from the one used to address child pixels")
 	}
-	// (vi) InsertCoord range check
+	// (vi) InsertCoord range check: the rejection condition, in negation normal form with boolean helper
+	// functions inlined, is a disjunction that contains x<0, y<0, x>size-1, y>size-1
 	{
 		info := ic.Pkg.TypesInfo
+		sig := ic.Obj.Type().(*types.Signature)
+		px, py := sig.Params().At(0), sig.Params().At(1)
 		seen := map[string]bool{}
 		var guard *ast.IfStmt
 		for _, s := range ic.Decl.Body.List {
-			if is, ok := s.(*ast.IfStmt); ok && guard == nil {
+			if is, ok := s.(*ast.IfStmt); ok && guard == nil && returnsErrorValue(info, is.Body) {
 				guard = is
 			}
 		}
+		shape := ""
 		if guard != nil {
-			for _, dj := range disjuncts(guard.Cond) {
-				be, ok := ast.Unparen(dj).(*ast.BinaryExpr)
-				if !ok {
-					continue
+			atoms, isOr, ok := nnfAtoms(c.P, info, guard.Cond, false, map[types.Object]ast.Expr{}, 0)
+			if !ok || !isOr {
+				shape = "the rejection condition is not a disjunction of comparisons"
+			}
+			for _, a := range atoms {
+				var fl string
+				switch core.ObjOf(a.info, a.l) {
+				case px:
+					fl = "x"
+				case py:
+					fl = "y"
+				default:
+					// through a helper: the helper's parameter was substituted by the argument expression
+					if o := core.ObjOf(info, a.l); o == px {
+						fl = "x"
+					} else if o == py {
+						fl = "y"
+					}
 				}
-				id, ok := ast.Unparen(be.X).(*ast.Ident)
-				if !ok {
-					continue
-				}
-				fl := nameFlavour(id.Name)
+				rs := canon(a.r)
 				switch {
-				case be.Op == token.LSS && canon(be.Y) == "0":
+				case a.op == token.LSS && rs == "0":
 					seen[fl+"<0"] = true
-				case be.Op == token.GTR && strings.HasSuffix(canon(be.Y), "-1") && strings.Contains(canon(be.Y), "deepestSize"):
+				case a.op == token.GTR && strings.HasSuffix(rs, "-1") && strings.Contains(rs, "deepestSize"):
 					seen[fl+">size-1"] = true
-				case be.Op == token.GEQ && strings.Contains(canon(be.Y), "deepestSize") && !strings.Contains(canon(be.Y), "-"):
+				case a.op == token.GEQ && strings.Contains(rs, "deepestSize") && !strings.Contains(rs, "-"):
 					seen[fl+">size-1"] = true
 				}
 			}
 		}
-		okc := guard != nil && seen["x<0"] && seen["y<0"] && seen["x>size-1"] && seen["y>size-1"] && returnsErrorValue(info, guard.Body)
-		c.Check(R, "insert-rejects-all-four-sides/pointindex.PointIndex.InsertCoord", ic.Decl.Pos(), okc, "rejects < 0 and > size-1 on both axes with an error", fmt.Sprintf("InsertCoord's range check covers only %v", keys(seen)))
+		okc := guard != nil && shape == "" && seen["x<0"] && seen["y<0"] && seen["x>size-1"] && seen["y>size-1"]
+		c.Check(R, "insert-rejects-all-four-sides/pointindex.PointIndex.InsertCoord", ic.Decl.Pos(), okc, "rejects < 0 and > size-1 on both axes with an error", fmt.Sprintf("InsertCoord's range check covers only %v %s", keys(seen), shape))
 	}
 	// (vii) lineIntersects applies the ownership exceptions to border touches
 	r03LineIntersectsExceptions(c, li)
@@ -847,6 +861,73 @@ func r03LineIntersectsExceptions(c *core.Ctx, li *core.Func) {
 		c.Check(R, "segment-pixel-test/"+k+"/"+li.Name, loop.Pos(), found[k], "present, guarded by the ownership facts it belongs to, and its tip test is exactly `an endpoint of the segment equals that point`",
 			"lineIntersects no longer applies the rule `"+k+"` in its exact form: a segment that only touches a pixel at a border point the pixel does not own (or runs along an owned border) is attributed wrongly")
 	}
+}
+
+// cmpAtom is a comparison l op r in negation normal form.
+type cmpAtom struct {
+	l, r ast.Expr
+	op   token.Token
+	info *types.Info
+}
+
+// nnfAtoms puts a boolean expression into negation normal form (pushing ! inward, flipping comparisons, inlining
+// single-return boolean helper functions of the module with parameters substituted by arguments) and returns its
+// atoms if the result is a pure disjunction (isOr) or a pure conjunction (!isOr) of comparisons.
+func nnfAtoms(p *core.Prog, info *types.Info, e ast.Expr, neg bool, subst map[types.Object]ast.Expr, depth int) (atoms []cmpAtom, isOr bool, ok bool) {
+	if depth > 6 {
+		return nil, false, false
+	}
+	e = ast.Unparen(e)
+	flip := map[token.Token]token.Token{token.LSS: token.GEQ, token.LEQ: token.GTR, token.GTR: token.LEQ, token.GEQ: token.LSS, token.EQL: token.NEQ, token.NEQ: token.EQL}
+	resolve := func(x ast.Expr) ast.Expr {
+		if o := core.ObjOf(info, x); o != nil {
+			if r, has := subst[o]; has {
+				return r
+			}
+		}
+		return x
+	}
+	switch x := e.(type) {
+	case *ast.UnaryExpr:
+		if x.Op == token.NOT {
+			return nnfAtoms(p, info, x.X, !neg, subst, depth+1)
+		}
+	case *ast.BinaryExpr:
+		switch x.Op {
+		case token.LAND, token.LOR:
+			la, lor, ok1 := nnfAtoms(p, info, x.X, neg, subst, depth+1)
+			ra, ror, ok2 := nnfAtoms(p, info, x.Y, neg, subst, depth+1)
+			if !ok1 || !ok2 {
+				return nil, false, false
+			}
+			thisOr := (x.Op == token.LOR) != neg
+			// children must be atoms or of the same connective
+			if (len(la) > 1 && lor != thisOr) || (len(ra) > 1 && ror != thisOr) {
+				return nil, false, false
+			}
+			return append(la, ra...), thisOr, true
+		case token.LSS, token.LEQ, token.GTR, token.GEQ, token.EQL, token.NEQ:
+			op := x.Op
+			if neg {
+				op = flip[op]
+			}
+			return []cmpAtom{{resolve(x.X), resolve(x.Y), op, info}}, true, true
+		}
+	case *ast.CallExpr:
+		if f := core.Callee(info, x); f != nil {
+			if hf := p.ByObj[f.Origin()]; hf != nil && hf.Decl.Body != nil && len(hf.Decl.Body.List) == 1 {
+				if ret, isRet := hf.Decl.Body.List[0].(*ast.ReturnStmt); isRet && len(ret.Results) == 1 {
+					hs := hf.Obj.Type().(*types.Signature)
+					sub := map[types.Object]ast.Expr{}
+					for i := 0; i < hs.Params().Len() && i < len(x.Args); i++ {
+						sub[hs.Params().At(i)] = resolve(x.Args[i])
+					}
+					return nnfAtoms(p, hf.Pkg.TypesInfo, ret.Results[0], neg, sub, depth+1)
+				}
+			}
+		}
+	}
+	return nil, false, false
 }
 
 func returnsErrorValue(info *types.Info, b *ast.BlockStmt) bool {
